@@ -274,6 +274,17 @@ func newRaceWorld(noRoot, api bool) (*raceWorld, error) {
 	return w, nil
 }
 
+// close releases the world's listeners (the provider's token endpoint, the SMTP sink): a thorough run builds
+// thousands of worlds
+func (w *raceWorld) close() {
+	if w.tok != nil {
+		w.tok.Close()
+	}
+	if w.sink != nil && w.sink.ln != nil {
+		w.sink.ln.Close()
+	}
+}
+
 func (w *raceWorld) mailMethod() string {
 	if w.api {
 		return "POST"
@@ -529,6 +540,8 @@ func init() {
 						return err
 					}
 					solo[i] = clientScript(w, i, i == 0 && run%12 == 0)
+					time.Sleep(20 * time.Millisecond) // the mail goroutines of this world
+					w.close()
 				}
 				w, err := newRaceWorld(run%2 == 1, run%4 >= 2)
 				if err != nil {
@@ -552,9 +565,7 @@ func init() {
 				w.sink.mu.Lock()
 				res.Mails = len(w.sink.msgs)
 				w.sink.mu.Unlock()
-				if w.sink.ln != nil {
-					w.sink.ln.Close()
-				}
+				w.close()
 				for i := 0; i < *clients; i++ {
 					res.Steps += len(conc[i])
 					a := strings.ReplaceAll(strings.ReplaceAll(strings.Join(solo[i], "\n"), fmt.Sprintf("c%d@", i), "c@"), fmt.Sprintf("/home/c%d", i), "/home/self")
